@@ -288,7 +288,18 @@ impl C06 {
                         self.boundaries_empty_block += 1;
                     }
                     if !id_sets[pool.idx()].contains(&b) {
-                        let kind = if empty { "block-without-commitments" } else { "block-with-commitments" };
+                        // Known finding F4: a boundary on a block WITHOUT commitments in this pool
+                        // gets only a synthesised ("ensured") checkpoint, which update_tree adds
+                        // after pruning and skips below the tree's oldest checkpoint; it is lost
+                        // when 100 or more newer checkpoints exist in that tree.
+                        let newer = id_sets[pool.idx()].range(b + 1..).count();
+                        let kind = if empty && newer >= 100 {
+                            "block-without-commitments:beneath-100-newer-checkpoints"
+                        } else if empty {
+                            "block-without-commitments"
+                        } else {
+                            "block-with-commitments"
+                        };
                         self.viol(
                             h,
                             r,
